@@ -25,7 +25,7 @@ ASSUMPTIONS = [
 ]
 GATES = ["crc_compared", "append_zero_checked", "single_bit_checked", "double_bit_checked", "odd_checked",
          "burst_checked", "validate0_checked", "lengths_enumerated",
-         "syndrome_targeted_bursts", "nested_frames", "intact_parsed_first", "flag_values_checked"]
+         "syndrome_targeted_bursts", "nested_frames", "intact_parsed_first", "flag_values_checked", "validate0_then_1_checked"]
 
 FRAME_LENGTHS = (6, 8, 9, 12, 25, 134, 261, 262, 517, 1029)
 
@@ -118,7 +118,7 @@ def validate0_case(ctx, frame, newcrc):
     def outcome(buf):
         try:
             m = RTCMReader.parse(buf, validate=0)
-            return ("ok", m.identity, m.payload, refmodel.public_attrs(m))
+            return ("ok", m.identity, m.payload, refmodel.public_attrs(m), m.serialize(), str(m), repr(m))
         except libs as e:
             return ("err", type(e).__name__)
 
@@ -129,6 +129,21 @@ def validate0_case(ctx, frame, newcrc):
         ctx.violation("validate0-foreign", f"{type(e).__name__}: {e}", params)
         return
     ctx.hit("validate0_checked")
+    # the same altered buffer parsed again WITH validation must be rejected (a result remembered from the
+    # unvalidated parse must not be reused)
+    if refcrc.crc_ref2(alt) != 0:
+        from pyrtcm.exceptions import RTCMParseError
+
+        try:
+            RTCMReader.parse(alt, validate=1)
+            ctx.violation("damage-accepted", "a wrong-checksum frame first parsed with validate=0 is accepted by a "
+                          "following parse with validate=1", params)
+            return
+        except RTCMParseError:
+            ctx.hit("validate0_then_1_checked")
+        except Exception as e:
+            ctx.violation("damage-wrong-error", f"validate=0 then validate=1: {type(e).__name__}: {e}", params)
+            return
     if a != b:
         ctx.violation("validate0-crc-influence", f"validate=0: result depends on CRC bytes {frame[-3:].hex()} vs "
                       f"{newcrc.hex()}: {a[0:2]} vs {b[0:2]}", params)
